@@ -1,0 +1,55 @@
+//go:build verif
+
+package queue
+
+// Contracts for the deductive verifier in /verif (gvc). Comment-only; compiled only with -tags verif.
+// View of a Queue: the sequence q.items[0..len), front at index 0.
+
+//@ func queue.New
+//@   property C05
+//@   ensures result != nil && fresh(result) && len(result.items) == 0
+
+//@ func (*queue.Queue).size
+//@   property C05
+//@   inline
+
+//@ func (*queue.Queue).Enqueue
+//@   property C05 C01 C02
+//@   lock q.mu : none
+//@   modifies q.items, elems(q.items)
+//@   ensures len(q.items) == old(len(q.items)) + 1
+//@   ensures forall k int :: 0 <= k && k < old(len(q.items)) ==> q.items[k] == old(q.items[k])
+//@   ensures q.items[old(len(q.items))] == item
+
+//@ func (*queue.Queue).Dequeue
+//@   property C05 C01 C02
+//@   lock q.mu : none
+//@   modifies q.items
+//@   ensures old(len(q.items)) == 0 ==> err != nil && item == zero && q.items == old(q.items)
+//@   ensures old(len(q.items)) > 0 ==> err == nil && item == old(q.items[0]) && len(q.items) == old(len(q.items)) - 1
+//@   ensures old(len(q.items)) > 0 ==> forall k int :: 0 <= k && k < len(q.items) ==> q.items[k] == old(q.items[k+1])
+
+//@ func (*queue.Queue).Peek
+//@   property C05 C01 C02
+//@   lock q.mu : none
+//@   ensures len(q.items) == 0 ==> item == zero
+//@   ensures len(q.items) > 0 ==> item == q.items[0]
+
+//@ func (*queue.Queue).Search
+//@   property C05 C01 C02
+//@   lock q.mu : none
+//@   ensures result <==> exists k int :: 0 <= k && k < len(q.items) && q.items[k] == item
+//@ loop 1
+//@   invariant 0 <= i
+//@   invariant forall k int :: 0 <= k && k < i ==> q.items[k] != item
+
+//@ func (*queue.Queue).Size
+//@   property C05 C01 C02
+//@   lock q.mu : none
+//@   ensures result == len(q.items) && result >= 0
+
+//@ func (*queue.Queue).Clear
+//@   property C05 C01 C02
+//@   lock q.mu : none
+//@   modifies q.items
+//@   ensures len(q.items) == 0
